@@ -306,7 +306,12 @@ func (s *Server[StateT]) handleDeleteFile(ctx *Context[StateT]) error {
 		return fmt.Errorf("read file to delete path failed: %w", err)
 	}
 
-	if err = s.Handler.HandleDeleteFile(ctx, rootedPath(path)); err != nil {
+	path = rootedPath(path)
+	if path == string(filepath.Separator) { // the served root itself is not the client's to remove
+		return ctx.wr.SendDeleteFileError()
+	}
+
+	if err = s.Handler.HandleDeleteFile(ctx, path); err != nil {
 		return ctx.wr.SendDeleteFileError()
 	}
 
@@ -332,7 +337,12 @@ func (s *Server[StateT]) handleRmdir(ctx *Context[StateT]) error {
 		return fmt.Errorf("read directory to remove path failed: %w", err)
 	}
 
-	if err = s.Handler.HandleRmdir(ctx, rootedPath(path)); err != nil {
+	path = rootedPath(path)
+	if path == string(filepath.Separator) { // the served root itself is not the client's to remove
+		return ctx.wr.SendRmdirError()
+	}
+
+	if err = s.Handler.HandleRmdir(ctx, path); err != nil {
 		return ctx.wr.SendRmdirError()
 	}
 
